@@ -334,3 +334,59 @@ def check_accumulate_options(prog, rep, rel='tenpy/linalg/np_conserved.py',
     walk(f.body, {})
     return n
 
+
+
+def check_sort_after_reorder(prog, rep, units):
+    """PAIR-sort-after-reorder: a block-list merge (two-pointer walk over `_qdata`) needs both
+    operands lex-sorted. `X.isort_qdata()` establishes that; `X = X._transpose_same_labels(..)`,
+    `X = X.transpose(..)` and `X.itranspose(..)` permute the columns of `_qdata` and destroy it (and
+    change the legs that an earlier compatibility check looked at). In every kernel that does both
+    for one operand the LAST reordering of X precedes the LAST sort of X, and precedes the
+    leg-by-leg comparison `test_equal` / `test_contractible` if there is one.
+    `units`: iterable of (module, qualname, function)."""
+    from .core import stmts_of
+    REORDER = ('_transpose_same_labels', 'transpose', 'itranspose')
+    n = 0
+    for m, q, f in units:
+        sorts, reorders = {}, {}
+        leg_checks = []
+        for st in stmts_of(f):
+            if isinstance(st, (ast.If, ast.For, ast.While, ast.Try, ast.With)):
+                hdr = [st.test] if isinstance(st, (ast.If, ast.While)) else (
+                    [st.iter] if isinstance(st, ast.For) else [])
+                walk = [x for h in hdr for x in ast.walk(h)]
+            else:
+                walk = list(ast.walk(st))
+            for c in walk:
+                if not (isinstance(c, ast.Call) and isinstance(c.func, ast.Attribute)):
+                    continue
+                recv = unparse(c.func.value)
+                if c.func.attr == 'isort_qdata':
+                    sorts.setdefault(recv, []).append(c.lineno)
+                elif c.func.attr in REORDER and isinstance(c.func.value, ast.Name):
+                    # re-binding form `X = X.transpose()` or in-place `X.itranspose()`
+                    if c.func.attr == 'itranspose' or (isinstance(st, ast.Assign) and any(
+                            isinstance(t, ast.Name) and t.id == recv for t in st.targets)):
+                        reorders.setdefault(recv, []).append(c.lineno)
+                elif c.func.attr in ('test_equal', 'test_contractible'):
+                    leg_checks.append(c.lineno)
+        for x in sorted(set(sorts) & set(reorders)):
+            n += 1
+            ok_sort = max(reorders[x]) < max(sorts[x])
+            ok_legs = not leg_checks or max(reorders[x]) < min(leg_checks)
+            rep.instance('PAIR-sort-after-reorder', {'function': q, 'operand': x,
+                                                     'sorted_after_reorder': ok_sort,
+                                                     'legs_checked_after_reorder': ok_legs})
+            if not ok_sort:
+                rep.violation('PAIR-sort-after-reorder', m, q, 'reorder-after-sort:' + x,
+                              '`%s` is transposed (line %d) AFTER its block list was sorted '
+                              '(line %d): the merge walks an unsorted `_qdata` as if sorted -- '
+                              'wrong entries, duplicate blocks, a true `_qdata_sorted` flag on '
+                              'unsorted data' % (x, max(reorders[x]), max(sorts[x])),
+                              max(reorders[x]))
+            elif not ok_legs:
+                rep.violation('PAIR-sort-after-reorder', m, q, 'reorder-after-legcheck:' + x,
+                              'the legs of `%s` are compared (line %d) BEFORE it is transposed '
+                              '(line %d): the check looks at the wrong legs' %
+                              (x, min(leg_checks), max(reorders[x])), max(reorders[x]))
+    return n
